@@ -279,7 +279,7 @@ func c19run(t *testing.T, r *kernel.Run) {
 	r.Logf("service session: %d requests over %d methods", nreq, len(methods))
 	joined, contactGroup := false, false
 	rich := r.Pick("rich", 4) // bit 0: the session starts by joining a multi-member group, bit 1: by creating a contact group
-	var last func() bool // the previous request, to be repeated
+	var last func() bool      // the previous request, to be repeated
 	for i := 0; i < nreq && !r.Failed(); i++ {
 		a := r.Pick("kind", 16)
 		if i == 0 && rich&1 != 0 {
